@@ -24,6 +24,18 @@ KERNEL_HEADER = r'''
 #define VALIDI(p) (__CPROVER_same_object((p)->m_pos, g_buf) && (p)->m_end == g_buf + g_len && OFF(p) <= g_len)
 #define BUFREQ (g_len <= MAXLEN && __CPROVER_is_fresh(g_buf, g_len))
 #define POFF OFF(&self->m_position)
+#ifdef VERIF_CBMC
+#define VERIF_GHOST(x) x
+#else
+#define VERIF_GHOST(x)
+#endif
+/* whitespace = the real white_alphabet row of m_alphabet (generated from the real header on every run) plus the line-end bytes */
+#ifdef VERIF_CBMC
+#define PCHAR_AT(d) ((g_len - POFF > (size_t)(d)) ? g_buf[POFF + (d)] : (char)0)
+#else
+#define PCHAR_AT(d) Position_peek(Position_plus(&self->m_position, (d)))
+#endif
+#define VERIF_IS_WS(c) (m_alphabet[detail_white_alphabet][(unsigned char)(c)] || (c) == '\r' || (c) == '\n')
 #define PVALID VALID(&self->m_position)
 #define PVALIDI VALIDI(&self->m_position)
 #define PREQ (__CPROVER_is_fresh(self, sizeof(*self)) && BUFREQ && PVALID)
@@ -224,7 +236,14 @@ LEXER_FUNCS = [
      [(r"\bconst auto len = sym\.size\(\);", "const size_t len = sym.size();")], None),
     ("Parser_SkipComment", "bool SkipComment()", "bool Parser_SkipComment(Parser *self)", [], None),
     ("Parser_SkipWS", "bool SkipWS(bool skip_cr = false)", "bool Parser_SkipWS(Parser *self, bool skip_cr)",
-     [(r"\bauto end_line = ", "bool end_line = ")], None),
+     [(r"\bauto end_line = ", "bool end_line = "),
+      # block contract on the whitespace branch (C01: "never silently drops text"): what this branch consumes is one
+      # blank / tab / line-end byte, or the two bytes CR LF - ghost code, present under cbmc only
+      (r"(if \(char_in_alphabet\(\*m_position, detail::white_alphabet\) \|\| \(skip_cr && end_line\)\) \{)",
+       r"\1 VERIF_GHOST(const size_t verif_ws0 = POFF; const char verif_c0 = *m_position; const char verif_c1 = *(m_position + 1);)"),
+      (r"(retval = true;\s*\} else if \(SkipComment\(\)\))",
+       r"VERIF_GHOST(__CPROVER_assert((POFF == verif_ws0 + 1 && VERIF_IS_WS(verif_c0)) || (POFF == verif_ws0 + 2 && verif_c0 == '\\r' && verif_c1 == '\\n'), "
+       r'"[P] outside comments SkipWS consumes only blanks, tabs and line ends");) \1')], None),
     ("Parser_read_exponent_and_suffix", "bool read_exponent_and_suffix() noexcept",
      "bool Parser_read_exponent_and_suffix(Parser *self)", [A_POS("exponent_pos")], None),
     ("Parser_Float_", "bool Float_() noexcept", "bool Parser_Float_(Parser *self)", [], None),
@@ -335,7 +354,16 @@ def emit_lexers(hdr, kb, contracts, prop):
                 b = raii_depth_counter(raii)(b)
             return b
 
-        kb.emit_function(csig, sl, rules, c.fn, c.loops, cname, pre=pre, ghost=c.ghost)
+        post = None
+        if cname == "Parser_SkipWS":
+            # For the block contract of SkipWS two reads of the same byte must be the same value.  cbmc treats every
+            # dereference of the (havocked, in the loop step) cursor as a fresh read, so here the accessor calls are
+            # replaced by the functional form of Position's PROVED contracts: operator* is buf[off] (NUL at end),
+            # operator+ is offset + distance clamped to the length.
+            def post(b):
+                b = b.replace("Position_peek(Position_plus(&self->m_position, 1))", "PCHAR_AT(1)")
+                return b.replace("(*Position_deref(&self->m_position))", "PCHAR_AT(0)")
+        kb.emit_function(csig, sl, rules, c.fn, c.loops, cname, pre=pre, post=post, ghost=c.ghost)
 
 
 
